@@ -169,8 +169,10 @@ def r2_bounded_accesses(r, facts):
         # original_len is self.len()
         pass
     # ---- tail windows
-    for name in (RB + '::spare_capacity_mut', '<io::read_buf::ReadBuf as io::traits::BufMut>::parts_mut', '<io::read_buf::ReadBuf as io::traits::BufMut>::parts',
-                 '<io::read_buf::ReadBuf as io::traits::BufMut>::spare_capacity'):
+    WINDOWS = (RB + '::spare_capacity_mut', '<io::read_buf::ReadBuf as io::traits::BufMut>::parts_mut', '<io::read_buf::ReadBuf as io::traits::BufMut>::parts',
+               '<io::read_buf::ReadBuf as io::traits::BufMut>::spare_capacity')
+    verdict = {}
+    for name in WINDOWS:
         h = facts.fn(name)
         eh = ExprBuilder(h, multi='phi')
         ptr_ok = len_ok = None
@@ -187,6 +189,13 @@ def r2_bounded_accesses(r, facts):
         else:
             ptr_ok = bool(adds) and all(owned_len(a[2][1]) and c08.is_prev_owned(_base_ptr(a[2][0])) for _, a in adds)
         len_ok = bool(subs) and all(is_capacity(strip(x[2])) and owned_len(strip(x[3])) for _, x in subs)
+        # a window function that hands out what a sibling computes (`let (ptr, len) = self.parts_mut()`) has the sibling's window
+        if not adds and not subs:
+            for loc, t in h.calls():
+                tgt = t.get('resolved') or ''
+                if tgt in verdict and tgt != name and t['args'] and strip(eh.operand(t['args'][0]))[0] == 'arg':
+                    ptr_ok, len_ok = verdict[tgt]
+        verdict[name] = (bool(ptr_ok), bool(len_ok))
         r.inst('%s: window (ptr+len: %s, capacity-len: %s)' % (name.rsplit('::', 1)[1], ptr_ok, len_ok), h.where())
         r.require(ptr_ok, 'window:%s/ptr' % name.rsplit('::', 1)[1], 'the exposed spare region does not start at ptr + len of the owned buffer', h.where())
         r.require(len_ok, 'window:%s/len' % name.rsplit('::', 1)[1], 'the exposed spare region is not capacity() - len long', h.where())
